@@ -5,6 +5,7 @@ import (
 
 	"github.com/cnotch/ipchub/av/codec"
 	"github.com/cnotch/ipchub/zzverif/symapi"
+	"github.com/pixelbender/go-sdp/sdp"
 )
 
 // VerifSpropTotal (C15 / C07): the sprop-parameter-sets attribute of an SDP, whatever its two
@@ -21,13 +22,39 @@ func VerifSpropTotal() {
 		"AAAAAQ==",     // a bare start code
 		"AAAAAWdCAB8=", // start code + truncated SPS
 		base64.StdEncoding.EncodeToString(sps)[:6] + "!!",
-		"Zw==", // a one-byte "SPS"
-		"aM4=", // a short PPS
+		"Zw==",   // a one-byte "SPS"
+		"aM4=",   // a short PPS
 		"AAAAAQ", // unpadded base64 of a start code
 	}
 	a := elems[symapi.Choose("first", len(elems))]
 	b := elems[symapi.Choose("second", len(elems))]
 	video := &codec.VideoMeta{Codec: "H264", ClockRate: 90000}
 	parseH264SpsPps(a+","+b, video) // (the caller strips "sprop-parameter-sets=" and anything after ";")
+	symapi.Reach("end")
+}
+
+// VerifAudioMetaClock (C06 / C07): the audio track's sample rate is what the RTP depacketizer
+// uses as the RTP clock and what the HLS/FLV side divides by: it is the rtpmap clock rate the
+// publisher announced - whatever the config= AudioSpecificConfig says (HE-AAC announcing the
+// core rate with an SBR extension rate, a reserved sampling index, an explicit frequency of
+// 0, damaged hex) - and never 0.
+func VerifAudioMetaClock() {
+	rate := []int{44100, 22050, 8000, 48000, 0}[symapi.Choose("rtpmapRate", 5)]
+	chans := symapi.Choose("rtpmapChannels", 3)
+	config := []string{"1210", "139056E5A0", "1690", "1710", "1780000010", "zz", "", "12"}[symapi.Choose("config", 8)]
+	m := &sdp.Format{Payload: 97, Name: "MPEG4-GENERIC", ClockRate: rate, Channels: chans,
+		Params: []string{"profile-level-id=1;mode=AAC-hbr;sizelength=13;indexlength=3;indexdeltalength=3;config=" + config}}
+	if symapi.Bool("configNotLast") {
+		m.Params[0] += ";streamtype=5"
+	}
+	audio := &codec.AudioMeta{Codec: "AAC"}
+	parseAudioMeta(m, audio)
+	symapi.Assert(audio.SampleRate > 0, "audio-sample-rate-never-zero")
+	if rate > 0 {
+		symapi.Assert(audio.SampleRate == rate, "audio-clock-is-the-announced-rtpmap-rate")
+	}
+	if chans > 0 {
+		symapi.Assert(audio.Channels == chans, "audio-channels-are-the-announced-ones")
+	}
 	symapi.Reach("end")
 }
